@@ -162,6 +162,20 @@ def r1_r2_dup_reorder(rep, src):
                         want = rest[:p] + moving + rest[p:] if op == 'order_before' else rest[:p + 1] + moving + rest[p + 1:]
                     n += 1
                     check_case(rep, src, lname, names, op, [key_arg(k, i), key_arg(rk, ri)], want)
+    # a key that denotes no occurrence -- an index beyond the occurrences of the field, also of a field that occurs once, and a name the
+    # paragraph does not have -- is refused with KeyError and moves nothing: (name, i) always denotes the i-th occurrence
+    Z = H.Key('z', 'Z')
+    for lname, names in (('A B A C A', [A, B, A, C, A]), ('B A C', [B, A, C])):
+        cnt = {}
+        for k in names:
+            cnt[k.cls] = cnt.get(k.cls, 0) + 1
+        for k, i in [(k_, cnt[k_.cls]) for k_ in (A, B)] + [(B, 5), (Z, None), (Z, 0)]:
+            for op, extra in (('order_first', []), ('order_last', []), ('order_before', [key_arg(C)]), ('order_after', [key_arg(C)])):
+                n += 1
+                check_case(rep, src, lname, names, op, [key_arg(k, i)] + extra, 'KeyError')
+            for op in ('order_before', 'order_after'):
+                n += 1
+                check_case(rep, src, lname, names, op, [key_arg(C), key_arg(k, i)], 'KeyError')
     rep.extra['dup_reorder_cases'] = n
 
 
@@ -180,6 +194,14 @@ def check_case(rep, src, lname, names, op, args, want):
         exc = None
     except H.Raised as x:
         exc = x
+    if want == 'KeyError':
+        if exc is not None and exc.exc == 'KeyError' and heap.snapshot() == before:
+            rep.ok('C10.R1', fn.site, what, 'KeyError, paragraph unchanged', nontrivial=False)
+        else:
+            order_, _i, _p = read_dup(heap, para)
+            rep.fail('C10.R1', fn.site, what, 'a key that denotes no occurrence of the field %s%s: (name, i) must denote the i-th occurrence or nothing' % (
+                'raises %s' % exc.exc if exc else 'is accepted (fields now %s)' % ' '.join(order_), '' if heap.snapshot() == before else ' after the paragraph was modified'), where=fn.where)
+        return
     if want == 'ValueError':
         if exc is not None and exc.exc == 'ValueError' and heap.snapshot() == before:
             rep.ok('C10.R1', fn.site, what, 'ValueError, paragraph unchanged')
